@@ -58,6 +58,27 @@ pub fn run(quick: bool) -> ! {
             std::thread::spawn(move || {
                 barrier.wait();
                 for i in 0..iters {
+                    if i % 4 == 1 {
+                        // a configuration nobody built before (an unbounded supply of distinct
+                        // patterns: whatever the library memoizes per pattern text fills up and
+                        // wraps), built outside the cache; its tokens are known by construction
+                        let word = format!("q{t}x{i}");
+                        let fresh = Cfg::single(vec![CPat::new(&word, 0), CPat::new("[0-9]+", 1)]);
+                        let input = format!("{word}{i}");
+                        let want = vec![(0usize, 0usize, word.len()), (1, word.len(), input.len())];
+                        let r = catch(|| fresh.build_uncached().map(|sc| sc.find_iter(&input).map(|m| (m.token_type(), m.start(), m.end())).collect::<Vec<_>>()));
+                        ops_done.fetch_add(1, Ordering::Relaxed);
+                        if !matches!(&r, Ok(Ok(v)) if *v == want) {
+                            let mut p = problems.lock().unwrap();
+                            if p.len() < 5 {
+                                p.push(format!("thread {t}, iteration {i}: build_uncached() of the fresh configuration ({}) on {input:?}: observed {:?}, sequentially {want:?}", fresh.show(), r.as_ref().map(|x| x.as_ref().map_err(|e| e.to_string()))));
+                            }
+                            if p.len() >= 5 {
+                                return;
+                            }
+                        }
+                        continue;
+                    }
                     let k = (i * 7 + t * 3) % cfgs.len();
                     let cached = cfgs[k].1 && (i + t) % 3 == 0;
                     let r = catch(|| {
